@@ -1364,11 +1364,16 @@ func (m *mach) builtin(fr *mframe, b *ssa.Builtin, args []mv, at ssa.Instruction
 		}
 		switch src := args[1].(type) {
 		case mSlice:
-			n := 0
-			for n < len(dst.arr) && n < len(src.arr) {
-				dst.arr[n] = mcopy(src.arr[n])
-				n++
+			// as the runtime's memmove: overlapping source and destination behave as if copied through a buffer
+			n := len(dst.arr)
+			if len(src.arr) < n {
+				n = len(src.arr)
 			}
+			tmp := make([]mv, n)
+			for i := 0; i < n; i++ {
+				tmp[i] = mcopy(src.arr[i])
+			}
+			copy(dst.arr, tmp)
 			return int64(n)
 		case string:
 			n := 0
